@@ -319,17 +319,15 @@ func (pc *probe) finish() {
 		}
 		pc.c.Violation(sig, what, witness(map[string]any{"finding": f, "all_findings": pc.findings}))
 	}
-	if len(pc.findings) == 0 {
-		// a content change or panic that no overlap explains: a channel the walker does not see
-		for _, a := range pc.anomalies {
-			kind := a[:strings.Index(a, ":")]
-			sig := pc.sp.Comp + "/" + pc.sp.Op + "/" + kind + "-without-detected-overlap"
-			if seen[sig] {
-				continue
-			}
-			seen[sig] = true
-			pc.c.Violation(sig, fmt.Sprintf("%s %s: %s", pc.sp.Comp, pc.sp.Op, a), witness(nil))
-		}
+	if len(pc.findings) == 0 && len(pc.anomalies) > 0 {
+		// What an observer saw changed (or an operation failed / panicked) although no result shares
+		// memory with another result or with the caller's value: the sharing is inside the component
+		// (e.g. the store kept the caller's object and hands out clones of it). One signature per
+		// cell, named after the first observation; the rest are its consequences.
+		a := pc.anomalies[0]
+		kind := a[:strings.Index(a, ":")]
+		sig := pc.sp.Comp + "/" + pc.sp.Op + "/observer-sees-foreign-mutation/" + kind
+		pc.c.Violation(sig, fmt.Sprintf("%s %s: %s", pc.sp.Comp, pc.sp.Op, a), witness(nil))
 	}
 	if !pc.incon && pc.mutable > 0 && pc.phases >= 2 {
 		pc.c.NonTrivial(kit.Hash(append([]any{cell}, pc.hashParts...)...))
